@@ -169,7 +169,7 @@ def sort_key(v):
 def scope(tier):
     if tier == "quick":
         return dict(MaxBase=6, MaxOff=1, RecDepth=1)
-    return dict(MaxBase=9, MaxOff=2, RecDepth=1)
+    return dict(MaxBase=9, MaxOff=2, RecDepth=2)
 
 
 def enumerate_pool(tier, wd):
